@@ -61,9 +61,10 @@ func writeBundle(c *core.Ctx, b *bundle.Bundle, plan core.WriterPlan) written {
 
 func readBundle(c *core.Ctx, data []byte, plan core.ReaderPlan) (*bundle.Bundle, error, *core.PanicInfo, uint64, *core.SimReader) {
 	sr := c.NewReader("disk", data, plan)
+	src, _ := c.WrapSource("disk", sr)
 	var b *bundle.Bundle
 	var err error
-	pi, alloc := c.GuardAlloc("bundle.Read", func() { b, err = bundle.Read(sr) })
+	pi, alloc := c.GuardAlloc("bundle.Read", func() { b, err = bundle.Read(src) })
 	return b, err, pi, alloc, sr
 }
 
@@ -766,7 +767,8 @@ func TestReencode(t *testing.T) {
 			case "unknown-section":
 				pos := c.Int("reencode.pos", 0, len(secs)-1) // anywhere before "responses"
 				junk := c.Bytes("reencode.junk", 0, 40)
-				name := c.PickStr("reencode.name", "foo", "x", "critical", "indexx", "Index")
+				// (also: any string literal of the tree under test that is not a section name)
+				name := c.PickDict("reencode.name", []string{"foo", "x", "critical", "indexx", "Index"}, `^[A-Za-z][A-Za-z0-9-]{0,24}$`, "index", "manifest", "signatures", "responses", "primary")
 				ns := append([]refbundle.RawSection{}, secs[:pos]...)
 				ns = append(ns, refbundle.RawSection{Name: name, Data: junk})
 				secs = append(ns, secs[pos:]...)
